@@ -94,6 +94,7 @@ def check(run: Run) -> None:
             if obj == ("attr", V, "value"):
                 n_fold += 1
                 fx = Facts(fa2, c)
+                _check_fold_guard(run, fa2, va, c, "C04.R2")
                 run.check(fx.isinstance_of(V, {"ast.Constant"}), "C04.R2", va, stmt_of(c), "folding getattr(value.value, attr) only when value is an ast.Constant", "an attribute is folded through value.value without knowing that the visited value is an ast.Constant: for other node kinds .value is a child *node* and the attribute is looked up on an ast object (e.x.id becomes the string 'e')", "isinstance(value, ast.Constant)")
     run.floor("C04.R2", n_fold, 1, "attribute folding sites")
     shared = _shared_field_names()
@@ -329,4 +330,63 @@ def check_comprehension_shadow(run: Run, ctx: TermCtx, m, cls: ClassInfo, rule: 
         ok_p = len(pushes) == 1 and len(pops) == 1 and pushes[0].recv is not None and pushes[0].recv == pops[0].recv and event_after(ctx, h, pops[0], pushes[0])
         body = [e for e in evs if (e.name == "generic_visit" and e.args and e.args[-1] == nodep) or (e.name == "visit" and e.args and e.args[0][0] == "attr" and e.args[0][1] == nodep and e.args[0][2] in ("elt", "key", "value"))]
         ok_b = bool(body) and ok_p and all(event_before(ctx, h, pushes[0], e) and event_after(ctx, h, pops[0], e) for e in body)
+        # when the iterables are visited one by one: the first exactly once (before the frame), the others exactly once (inside)
+        gens_t = ("attr", nodep, "generators")
+        iter_vis = [e for e in evs if e.name == "visit" and e.args and e.args[0][0] == "attr" and e.args[0][2] == "iter"]
+        if iter_vis:
+            first = [e for e in iter_vis if e.args[0][1] == ("index", gens_t, 0)]
+            rest = [e for e in iter_vis if e not in first]
+            ok_i = len(first) == 1 and len(rest) == 1
+            why_i = f"{len(first)} visit(s) of the first iterable, {len(rest)} of the others"
+            if ok_i:
+                r_ = rest[0].args[0][1]
+                # elem(enumerate(generators))[1] under index > 0, or elem(generators[1:])
+                if r_ == ("index", ("elem", ("app", ("global", "builtins.enumerate"), (gens_t,), ())), 1):
+                    idx_t = ("index", ("elem", ("app", ("global", "builtins.enumerate"), (gens_t,), ())), 0)
+                    fx_ = rest[0].facts(ctx)
+                    ok_i = fx_.compare_const(idx_t, [ast.Gt], 0) or fx_.compare_const(idx_t, [ast.GtE], 1) or fx_.compare_const(idx_t, [ast.NotEq], 0)
+                    why_i = "the other iterables are not visited exactly for index > 0 of enumerate(generators)"
+                elif r_ == ("elem", ("slice", gens_t, 1, None)):
+                    ok_i = True
+                else:
+                    ok_i = False
+                    why_i = f"the other iterables are taken from {show(r_)[:80]}: not generators[1:] / enumerate(generators) from 0"
+            run.check(ok_i, rule, h, h.node, "every iterable is visited exactly once (the first outside the frame)", f"{h.name}: {why_i} - an iterable visited twice has substitutions applied to already substituted text (a name in the caller's argument that is spelled like another parameter is rewritten again)")
         run.check(ok_p and ok_b, rule, h, h.node, "the element is visited between the push and the pop of that frame, on every path", f"{h.name} does not visit the comprehension's element under a frame that is pushed before and popped after it: loop variables are substituted, or the frame leaks into the rest of the expression")
+
+
+def _check_fold_guard(run: Run, fa, va: FuncInfo, fold_call: ast.Call, rule: str) -> None:
+    """the attribute of a captured constant is folded whenever it *exists* (hasattr), not when its value is truthy"""
+    if len(fold_call.args) >= 3:
+        return  # a probing getattr(.., default): judged where its result is tested
+    obj_t = strip_sites(fa.term_of(fold_call.args[0]))
+    attr_t = strip_sites(fa.term_of(fold_call.args[1]))
+    exists = False
+    truthy = []
+    for a, pol in Facts(fa, fold_call).atoms:
+        if isinstance(a, ast.Call) and isinstance(a.func, ast.Name) and len(a.args) >= 2 and fa.cfg.has_node(a.args[0]):
+            try:
+                same = strip_sites(fa.term_of(a.args[0])) == obj_t and strip_sites(fa.term_of(a.args[1])) == attr_t
+            except AnalysisError:
+                same = False
+            if same and a.func.id == "hasattr" and pol:
+                exists = True
+            if same and a.func.id == "getattr" and pol:
+                truthy.append(ast.unparse(a))
+    run.check(exists and not truthy, rule, va, stmt_of(fold_call), "captured attribute folded whenever it exists (hasattr), whatever its value", "the attribute of a captured object is folded only when " + (f"{truthy[0]} is truthy" if truthy else "some condition other than hasattr(object, name) holds") + ": a captured attribute whose value is 0, 0.0, '' or False stays in the query as a Python-side attribute reference instead of its value", "hasattr(value.value, node.attr)")
+
+
+def check_attribute_fold(run: Run, ctx, m, rule: str) -> None:
+    """C13.R4 (shared with C04.R2): values reached through an attribute of a captured object are embedded exactly"""
+    cls = m.find_class("_rewrite_captured_vars", in_module="func_adl.util_ast")
+    va = cls.methods.get("visit_Attribute")
+    if va is None:
+        raise AnalysisError("anchor vanished: _rewrite_captured_vars.visit_Attribute")
+    fa2 = ctx.analysis(va)
+    V = ("visit", ("attr", ("param", va.pos_params[1]), "value"))
+    n = 0
+    for c in calls_in(va):
+        if isinstance(c.func, ast.Name) and c.func.id == "getattr" and len(c.args) == 2 and fa2.cfg.has_node(c) and strip_sites(fa2.term_of(c.args[0])) == ("attr", V, "value"):
+            n += 1
+            _check_fold_guard(run, fa2, va, c, rule)
+    run.floor(rule, n, 1, "attribute folding sites")
